@@ -157,6 +157,18 @@ print('REPRODUCED' if bad else 'NOT-REPRODUCED'); sys.exit(1 if bad else 0)
     return path if ok else None
 
 
+class _ArrayProtocol:
+    """a container handing out its own storage through __array__ (as a pandas Series / xarray DataArray does)"""
+
+    def __init__(self, values):
+        self._values = values
+
+    def __array__(self, dtype=None, copy=None):
+        if copy:
+            return np.array(self._values, dtype=dtype, copy=True)
+        return np.asarray(self._values, dtype=dtype)
+
+
 def run_alias(spec, tier, mg):
     """concrete enumeration of the aliasing / pass-through rule table"""
     res = common.new_result()
@@ -169,7 +181,8 @@ def run_alias(spec, tier, mg):
         "asarray": lambda x, **k: mg.asarray(x, **{kk: v for kk, v in k.items() if kk in ("dtype",)}),
     }
     for mname, mk in makers.items():
-        for skind in ("array", "tensor", "tensor-graph", "tensor-grad", "list", "scalar", "array0d", "int-array", "array-T", "array-strided", "array-F", "tensor-T"):
+        for skind in ("array", "tensor", "tensor-graph", "tensor-grad", "list", "scalar", "array0d", "int-array", "array-T", "array-strided", "array-F", "tensor-T",
+                      "buffer-array.array", "buffer-memoryview", "array-protocol-object"):
             for copy in (None, True, False):
                 if mname in ("astensor", "asarray") and copy is not None:
                     continue
@@ -181,7 +194,18 @@ def run_alias(spec, tier, mg):
                         raw = {"array": np.array([1.0, 2.0]), "array0d": np.array(2.0), "int-array": np.array([1, 2]),
                                "array-T": np.arange(6.0).reshape(2, 3).T, "tensor-T": np.arange(6.0).reshape(2, 3).T, "array-strided": np.arange(6.0)[::2],
                                "array-F": np.asfortranarray(np.arange(6.0).reshape(2, 3))}.get(skind, np.array([1.0, 2.0]))
-                        if skind == "list":
+                        if skind == "buffer-array.array":
+                            import array as _array
+
+                            src = _array.array("d", [1.0, 2.0])
+                            raw = np.frombuffer(src, dtype=float)
+                        elif skind == "buffer-memoryview":
+                            raw = np.array([1.0, 2.0])
+                            src = memoryview(raw)
+                        elif skind == "array-protocol-object":
+                            raw = np.array([1.0, 2.0])
+                            src = _ArrayProtocol(raw)
+                        elif skind == "list":
                             src = [1.0, 2.0]
                         elif skind == "scalar":
                             src = 2.0
